@@ -466,7 +466,7 @@ mod internal {
         const ON_THE_HEAP: usize = {
             let mut bytes = [255; USIZE_SIZE];
             bytes[USIZE_SIZE - 1] = LastByte::HeapMarker as u8;
-            usize::from_le_bytes(bytes)
+            usize::from_ne_bytes(bytes)
         };
 
         pub(super) const fn new(size: usize) -> Result<Self, ReserveError> {
